@@ -1109,7 +1109,9 @@ func (t *tScreen) EnableMouse(flags ...MouseFlags) {
 
 	t.Lock()
 	t.mouseFlags = f
-	t.enableMouse(f)
+	if t.running {
+		t.enableMouse(f)
+	}
 	t.Unlock()
 }
 
@@ -1139,21 +1141,27 @@ func (t *tScreen) enableMouse(f MouseFlags) {
 func (t *tScreen) DisableMouse() {
 	t.Lock()
 	t.mouseFlags = 0
-	t.enableMouse(0)
+	if t.running {
+		t.enableMouse(0)
+	}
 	t.Unlock()
 }
 
 func (t *tScreen) EnablePaste() {
 	t.Lock()
 	t.pasteEnabled = true
-	t.enablePasting(true)
+	if t.running {
+		t.enablePasting(true)
+	}
 	t.Unlock()
 }
 
 func (t *tScreen) DisablePaste() {
 	t.Lock()
 	t.pasteEnabled = false
-	t.enablePasting(false)
+	if t.running {
+		t.enablePasting(false)
+	}
 	t.Unlock()
 }
 
@@ -1172,14 +1180,18 @@ func (t *tScreen) enablePasting(on bool) {
 func (t *tScreen) EnableFocus() {
 	t.Lock()
 	t.focusEnabled = true
-	t.enableFocusReporting()
+	if t.running {
+		t.enableFocusReporting()
+	}
 	t.Unlock()
 }
 
 func (t *tScreen) DisableFocus() {
 	t.Lock()
 	t.focusEnabled = false
-	t.disableFocusReporting()
+	if t.running {
+		t.disableFocusReporting()
+	}
 	t.Unlock()
 }
 
